@@ -106,10 +106,26 @@ def gen(groups):
 
 
 def coq_make(targets, timeout=900):
-    """make -k the given .vo targets.  Returns (ok, log)"""
-    with Lock('coq'):
+    """make -k the given .vo targets.  Returns (ok, log).
+    First attempt under a SHARED lock (several builders may run at once: their targets rarely overlap); if it fails, one
+    retry under the EXCLUSIVE lock, so that a clash between concurrent builders is never mistaken for a broken proof."""
+    os.makedirs(BUILD, exist_ok=True)
+    cmd = ['timeout', str(timeout), 'make', '-k', '-j%d' % NCPU, 'COQC=timeout 600 coqc'] + list(targets)
+    lockf = open(os.path.join(BUILD, 'coq.lock'), 'w')
+    try:
+        fcntl.flock(lockf, fcntl.LOCK_EX)
         coq_project()
-        rc, out = sh(['timeout', str(timeout), 'make', '-k', '-j%d' % NCPU, 'COQC=timeout 600 coqc'] + list(targets), timeout=timeout + 30, cwd=COQ)
+        fcntl.flock(lockf, fcntl.LOCK_SH)
+        rc, out = sh(cmd, timeout=timeout + 30, cwd=COQ)
+        if rc != 0:
+            fcntl.flock(lockf, fcntl.LOCK_UN)
+            fcntl.flock(lockf, fcntl.LOCK_EX)
+            coq_project()
+            rc, out2 = sh(cmd, timeout=timeout + 30, cwd=COQ)
+            out = out2 if rc == 0 else out + '\n--- retry under exclusive lock ---\n' + out2
+    finally:
+        fcntl.flock(lockf, fcntl.LOCK_UN)
+        lockf.close()
     return rc == 0, out
 
 
